@@ -159,6 +159,7 @@ type Sim struct {
 	deathHooks []func(*Node)
 	atEnd      []func()
 	decorators map[string]func(any) any
+	sitePauses []*sitePause
 	seq        int64
 	pausePts   []pausePt
 	Pauses     []PauseRec
@@ -706,23 +707,76 @@ func (s *Sim) yield(t *Task) {
 	if len(s.pausePts) > 0 && s.Steps >= s.pausePts[0].step && !t.pausing && !s.tearing {
 		p := s.pausePts[0]
 		s.pausePts = s.pausePts[1:]
-		t.pausing = true
-		s.Faults["task_pause"]++
-		from := s.Now()
-		s.Logf("pause task %s#%d for %v", t.Name, t.ID, p.dur)
-		s.block(t, "pause")
-		tm := time.NewTimer(p.dur)
-		select {
-		case <-tm.C:
-		case <-t.kill:
-			tm.Stop()
-			t.dead, t.killed = true, true
-			runtime.Goexit()
-		}
-		s.Pauses = append(s.Pauses, PauseRec{Task: t.ID, From: from, To: s.Now(), Stack: callerNames()})
-		s.resume(t)
-		t.pausing = false
+		s.pauseHere(t, p.dur)
 	}
+	if len(s.sitePauses) > 0 && !t.pausing && !s.tearing {
+		var names []string
+		for i := 0; i < len(s.sitePauses); i++ {
+			sp := s.sitePauses[i]
+			if sp.node != nil && sp.node != t.Node {
+				continue
+			}
+			if names == nil {
+				names = callerNames()
+			}
+			hit := false
+			for _, f := range names {
+				if strings.Contains(f, sp.site) {
+					hit = true
+					break
+				}
+			}
+			if !hit {
+				continue
+			}
+			if sp.skip > 0 {
+				sp.skip--
+				continue
+			}
+			s.sitePauses = append(s.sitePauses[:i:i], s.sitePauses[i+1:]...)
+			s.Probes["site_pause:"+sp.site]++
+			s.pauseHere(t, sp.dur)
+			break
+		}
+	}
+}
+
+// pauseHere stops t (the running task, at a scheduling point) for d of fake
+// time: the "slow / stalled task" fault.
+func (s *Sim) pauseHere(t *Task, d time.Duration) {
+	t.pausing = true
+	s.Faults["task_pause"]++
+	from := s.Now()
+	s.Logf("pause task %s#%d for %v", t.Name, t.ID, d)
+	s.block(t, "pause")
+	tm := time.NewTimer(d)
+	select {
+	case <-tm.C:
+	case <-t.kill:
+		tm.Stop()
+		t.dead, t.killed = true, true
+		runtime.Goexit()
+	}
+	s.Pauses = append(s.Pauses, PauseRec{Task: t.ID, From: from, To: s.Now(), Stack: callerNames()})
+	s.resume(t)
+	t.pausing = false
+}
+
+type sitePause struct {
+	site string
+	node *Node
+	skip int
+	dur  time.Duration
+}
+
+// ArmPauseAt arms one task pause that is bound to a place in the code instead
+// of a step count ("event-biased" placement of the slow-task fault): the first
+// task (of node, if not nil) that reaches a scheduling point while a function
+// whose qualified name contains site is on its call stack, after skip such
+// scheduling points have gone by, is paused for d of fake time. The harness
+// draws skip and d from the tape, so the run stays a function of the tape.
+func (s *Sim) ArmPauseAt(site string, node *Node, skip int, d time.Duration) {
+	s.sitePauses = append(s.sitePauses, &sitePause{site: site, node: node, skip: skip, dur: d})
 }
 
 // PauseRec records an injected task pause (the "slow / stalled task" fault:
